@@ -124,9 +124,9 @@ Theorem C15_table_matches_model : forallb TableCheck.row_ok version_table = true
 Proof. exact TableCheck.table_matches_model_holds. Qed.
 Print Assumptions C15_table_matches_model.
 
-(* Path-sensitive static pass over the current source of HashSet and TreeSet: no public member function has a normal
-   return that is reached after a write to mCount / mCapacity / mBuckets / mRootNode / mNodeParams of *this without
-   mCrew.IncVersion() on that path. *)
+(* Path-sensitive static pass over the current source of HashSet, TreeSet, HashMap, TreeMap, HashMultiMap and DataTable: no public
+   member function has a normal return that is reached after a structural write of a version cell (own structural fields, a
+   mutating call on the nested container, mRaws / raw destruction for DataTable) without the bump of that cell on that path. *)
 Theorem C15_no_structural_write_without_bump : version_leaks = [].
 Proof. exact TableCheck.no_structural_write_without_bump_holds. Qed.
 Print Assumptions C15_no_structural_write_without_bump.
@@ -302,3 +302,96 @@ Theorem C15_dt_rejected_call_is_identity :
   forall s o s', Table.tstep s o = (s', Table.TRej) -> s' = s.
 Proof. exact TableProofs.dt_rejected_call_is_identity. Qed.
 Print Assumptions C15_dt_rejected_call_is_identity.
+
+(* ================= Round 4 ================= *)
+(* HashMultiMap: for every history from the empty multimap, a value (pair) iterator whose two snapshots are current and which is
+   positioned at a value still has its index inside the key's value array; reading it returns that value and ++ is accepted. *)
+Theorem C15_mm_fresh_value_iterator_accepted :
+  forall ops i k n, let s := MultiMap.mrun MultiMap.minit ops in
+    MultiMap.kcid (MultiMap.mhs s i) = Some 0%nat -> MultiMap.vcid (MultiMap.mhs s i) = Some 0%nat ->
+    MultiMap.ksnap (MultiMap.mhs s i) = MultiMap.kver s -> MultiMap.vsnap (MultiMap.mhs s i) = MultiMap.vver s ->
+    MultiMap.kp (MultiMap.mhs s i) = MultiMap.KElem k -> MultiMap.vp (MultiMap.mhs s i) = MultiMap.VAt n ->
+    exists vs, MultiMap.lookup k (MultiMap.ents s) = Some vs /\ (n < List.length vs)%nat /\
+               MultiMap.mstep s (MultiMap.MVDeref i) = (s, MultiMap.MAcc (Some (nth n vs 0%Z))) /\
+               snd (MultiMap.mstep s (MultiMap.MVInc i)) = MultiMap.MAcc None.
+Proof. exact MultiMapProofs.mm_fresh_value_iterator_accepted. Qed.
+Print Assumptions C15_mm_fresh_value_iterator_accepted.
+Theorem C15_mm_contents_change_bumps :
+  forall s o, MultiMap.kver (fst (MultiMap.mstep s o)) = MultiMap.kver s -> MultiMap.vver (fst (MultiMap.mstep s o)) = MultiMap.vver s ->
+    MultiMap.ents (fst (MultiMap.mstep s o)) = MultiMap.ents s.
+Proof. exact MultiMapProofs.mm_contents_change_bumps. Qed.
+Print Assumptions C15_mm_contents_change_bumps.
+
+(* THE EXACT ACCEPTED-SET OF THE CODE.  A handle to an element (not re-assigned meanwhile) is accepted by a read IF AND ONLY IF no
+   version-bumping step ran since it was taken (steps_keep: every step of the history kept the version of its container), and is
+   rejected iff some step bumped it.  The property's own reading ("accepted iff the container was not modified") is WEAKER on the
+   accepting side: the three *_noop_*_invalidates theorems below exhibit entry points that change nothing and still bump. *)
+Theorem C15_accepted_iff_no_bump :
+  forall k s c i key ops,
+    reachable k s -> hcrew (hs s i) = Some (crew (getc s c)) -> hsnap (hs s i) = ver (getc s c) -> hpos (hs s i) = PElem key ->
+    Forall (fun o => writes o i = false) ops ->
+    let s' := run k s ops in
+    (step k s' (ODeref i) = (s', Acc (Some key)) <-> steps_keep k s ops (crew (getc s c))) /\
+    (step k s' (ODeref i) = (s', Rej) <-> ~ steps_keep k s ops (crew (getc s c))).
+Proof. exact VersionProofs.accepted_iff_no_bump. Qed.
+Print Assumptions C15_accepted_iff_no_bump.
+Theorem C15_dt_accepted_iff_remove_version_unchanged :
+  forall ops i id, let s := Table.trun Table.tinit ops in
+    Table.ttid (Table.ths s i) = Some 0%nat -> Table.tids (Table.ths s i) = [id] ->
+    ((exists v, Table.tstep s (Table.TRead i) = (s, Table.TAcc (Some v))) <-> Table.tsnap (Table.ths s i) = Table.rver s) /\
+    (Table.tstep s (Table.TRead i) = (s, Table.TRej) <-> Table.tsnap (Table.ths s i) <> Table.rver s).
+Proof. exact TableProofs.dt_accepted_iff_remove_version_unchanged. Qed.
+Print Assumptions C15_dt_accepted_iff_remove_version_unchanged.
+Theorem C15_mm_value_iterator_accepted_iff_versions_unchanged :
+  forall ops i k n, let s := MultiMap.mrun MultiMap.minit ops in
+    MultiMap.kcid (MultiMap.mhs s i) = Some 0%nat -> MultiMap.vcid (MultiMap.mhs s i) = Some 0%nat ->
+    MultiMap.kp (MultiMap.mhs s i) = MultiMap.KElem k -> MultiMap.vp (MultiMap.mhs s i) = MultiMap.VAt n ->
+    ((exists v, MultiMap.mstep s (MultiMap.MVDeref i) = (s, MultiMap.MAcc (Some v))) <->
+       (MultiMap.ksnap (MultiMap.mhs s i) = MultiMap.kver s /\ MultiMap.vsnap (MultiMap.mhs s i) = MultiMap.vver s)) /\
+    (MultiMap.mstep s (MultiMap.MVDeref i) = (s, MultiMap.MRej) <->
+       ~ (MultiMap.ksnap (MultiMap.mhs s i) = MultiMap.kver s /\ MultiMap.vsnap (MultiMap.mhs s i) = MultiMap.vver s)).
+Proof. exact MultiMapProofs.mm_value_iterator_accepted_iff_versions_unchanged. Qed.
+Print Assumptions C15_mm_value_iterator_accepted_iff_versions_unchanged.
+
+(* Over-invalidation witnesses (the weaker reading "contents unchanged => still accepted" is refuted by the code): *)
+Theorem C15_noop_clear_invalidates :
+  let pre := [OInsert false 5 0; ORemoveKey false 5; OFind false 7 1] in
+  keys (w0 (run KHash init pre)) = keys (w0 (run KHash init (pre ++ [OClear false false]))) /\
+  snd (step KHash (run KHash init pre) (OAddAt false 1 7)) = Acc None /\
+  snd (step KHash (run KHash init (pre ++ [OClear false false])) (OAddAt false 1 7)) = Rej.
+Proof. exact VersionProofs.noop_clear_invalidates. Qed.
+Print Assumptions C15_noop_clear_invalidates.
+Theorem C15_dt_noop_remove_filter_invalidates :
+  let pre := [Table.TAddRow 5; Table.TAddRow 6; Table.TRef 0 0] in
+  Table.rows (Table.trun Table.tinit pre) = Table.rows (Table.trun Table.tinit (pre ++ [Table.TRemoveIf 1000003])) /\
+  snd (Table.tstep (Table.trun Table.tinit pre) (Table.TRead 0)) = Table.TAcc (Some 5%Z) /\
+  snd (Table.tstep (Table.trun Table.tinit (pre ++ [Table.TRemoveIf 1000003])) (Table.TRead 0)) = Table.TRej.
+Proof. exact TableProofs.dt_noop_remove_filter_invalidates. Qed.
+Print Assumptions C15_dt_noop_remove_filter_invalidates.
+Theorem C15_mm_noop_remove_values_invalidates :
+  let pre := [MultiMap.MInsertKey 1 0; MultiMap.MAdd 2 20 10; MultiMap.MFind 1 1; MultiMap.MFind 2 2; MultiMap.MMakeIt 2 0 11] in
+  MultiMap.ents (MultiMap.mrun MultiMap.minit pre) = MultiMap.ents (MultiMap.mrun MultiMap.minit (pre ++ [MultiMap.MRemoveValues 1])) /\
+  snd (MultiMap.mstep (MultiMap.mrun MultiMap.minit pre) (MultiMap.MVDeref 11)) = MultiMap.MAcc (Some 20%Z) /\
+  snd (MultiMap.mstep (MultiMap.mrun MultiMap.minit (pre ++ [MultiMap.MRemoveValues 1])) (MultiMap.MVDeref 11)) = MultiMap.MRej.
+Proof. exact MultiMapProofs.mm_noop_remove_values_invalidates. Qed.
+Print Assumptions C15_mm_noop_remove_values_invalidates.
+
+(* DataSelection handles (selections, selections of selections, sorted / reversed / trimmed selections keep the keeper they were
+   created with): stale => Sort(column) rejected; stale and non-empty => iteration, selection-of-selection with a reading filter and
+   table.Remove(sel.begin, sel.end) rejected, nothing changes; for every history a selection with a current snapshot contains only
+   rows of the table and iterating it is accepted. *)
+Theorem C15_dt_stale_selection_rejected :
+  forall s i m slot, TableProofs.dt_stale s (Table.ths s i) -> Table.tissel (Table.ths s i) = true -> m <> 0%Z ->
+    Table.tstep s (Table.TSelSort i) = (s, Table.TRej) /\
+    (Table.tids (Table.ths s i) <> [] ->
+       Table.tstep s (Table.TSelSum i) = (s, Table.TRej) /\ Table.tstep s (Table.TSelOfSel i m slot) = (s, Table.TRej) /\
+       Table.tstep s (Table.TRemoveSel i) = (s, Table.TRej)).
+Proof. exact TableProofs.dt_stale_selection_rejected. Qed.
+Print Assumptions C15_dt_stale_selection_rejected.
+Theorem C15_dt_fresh_selection_accepted :
+  forall ops i, let s := Table.trun Table.tinit ops in
+    Table.ttid (Table.ths s i) = Some 0%nat -> Table.tsnap (Table.ths s i) = Table.rver s -> Table.tissel (Table.ths s i) = true ->
+    (forall id, In id (Table.tids (Table.ths s i)) -> In id (map fst (Table.rows s))) /\
+    exists v, Table.tstep s (Table.TSelSum i) = (s, Table.TAcc (Some v)).
+Proof. exact TableProofs.dt_fresh_selection_accepted. Qed.
+Print Assumptions C15_dt_fresh_selection_accepted.
